@@ -230,4 +230,17 @@ def rule_main_flags(ctx):
         ctx.add("FLOW-READ", "main:%s.decomposition" % adt, local_of(f["decomposition"]) == "decomposition", ctx.site(m), "decomposition is the command-line value")
 
 
-RULES = [rule_break, rule_decompose, rule_flag_reads]
+def rule_simplify_shared(ctx):
+    """`--no-simplify` does not change the claim exactly when every rewrite of the portfolios preserves meaning: the soundness obligations of
+    C07 (schemas on truth tables, the side conditions of the quantifier / comparison / substitution rewrites, fresh names) are run here too"""
+    from . import c07
+    sub = type(ctx)(ctx.prop, ctx.tier, ctx.facts)
+    for r in (c07.rule_rw1, c07.rule_rw4, c07.rule_rw5, c07.rule_comparisons, c07.rule_equality_predicate, c07.rule_fresh_names):
+        try:
+            r(sub)
+        except AnalysisGap as e:
+            sub.gap(r.__name__, "anchor", why=str(e))
+    ctx.obls.extend(sub.obls)
+
+
+RULES = [rule_break, rule_decompose, rule_flag_reads, rule_simplify_shared]
